@@ -68,6 +68,30 @@ func largerRoot(y2 *big.Int) *big.Int {
 	}
 	return y
 }
+
+// a valid (on-curve, in-subgroup) point whose y is the first admissible value at or after `y0` (stepping by `step`): y is chosen,
+// x solved from x^2 = (1 - y^2)/(a - d y^2); `neg` selects the other root of x
+func pointFromY(y0 *big.Int, step int64, neg bool) (*big.Int, *big.Int) {
+	y := new(big.Int).Mod(y0, modP)
+	for {
+		y2 := mulm(y, y)
+		den := subm(curveA, mulm(curveD, y2))
+		if den.Sign() != 0 {
+			x2 := mulm(subm(big.NewInt(1), y2), new(big.Int).ModInverse(den, modP))
+			if x2.Sign() == 0 || isQR(x2) {
+				x := new(big.Int).ModSqrt(x2, modP)
+				if isQR(subm(big.NewInt(1), mulm(curveA, x2))) {
+					if neg {
+						x = subm(big.NewInt(0), x)
+					}
+					return x, new(big.Int).Set(y)
+				}
+			}
+		}
+		y = new(big.Int).Mod(y.Add(y, big.NewInt(step)), modP)
+	}
+}
+
 func be32(v *big.Int) []byte { return v.FillBytes(make([]byte, 32)) }
 
 func (d *driver) decodeInput(c *decCase, i int) []byte {
@@ -100,6 +124,37 @@ func (d *driver) decodeInput(c *decCase, i int) []byte {
 	case "offcurve":
 		x := findX(p, "offcurve")
 		return mk(x, yOf(x))
+	case "yhalf", "yhalf64", "yhalf128", "yhalf192", "ytop", "yhalf_wrong":
+		// boundary of the sign choice: canonical y just above (p-1)/2 (offset i+1, or agreeing with (p-1)/2 on its top 192/128/64 bits),
+		// or just below p; "yhalf_wrong" offers the OTHER root, just below the boundary (uncompressed form only)
+		half := new(big.Int).Rsh(new(big.Int).Sub(modP, one), 1)
+		var y0 *big.Int
+		step := int64(1)
+		switch c.Cls {
+		case "yhalf", "yhalf_wrong":
+			y0 = new(big.Int).Add(half, big.NewInt(int64(1+i*3)))
+		case "ytop":
+			y0 = new(big.Int).Sub(modP, big.NewInt(int64(1+i*3)))
+			step = -1
+		default:
+			bits := map[string]uint{"yhalf64": 64, "yhalf128": 128, "yhalf192": 192}[c.Cls]
+			hi := new(big.Int).Rsh(half, bits)
+			hi.Lsh(hi, bits)
+			low := new(big.Int).Rsh(p.big(300), 300-bits)
+			y0 = hi.Add(hi, low)
+			if y0.Cmp(half) <= 0 {
+				y0.Sub(modP, y0) // keep the larger root
+			}
+		}
+		x, y := pointFromY(y0, step, i%2 == 1)
+		if y.Cmp(half) <= 0 { // stepped across the boundary (cannot happen for the offsets used, kept for safety)
+			y.Sub(modP, y)
+			x = subm(big.NewInt(0), x)
+		}
+		if c.Cls == "yhalf_wrong" {
+			return mk(x, new(big.Int).Sub(modP, y))
+		}
+		return mk(x, y)
 	case "zero":
 		return mk(big.NewInt(0), yOf(big.NewInt(0)))
 	case "one":
